@@ -384,6 +384,13 @@ def main():
     n_obl = len(my_obls) + len(builtin)
     n_dis = n_obl - len([n for n in failed_names])
     js = res['json'] or {}
+    # vacuity guard of every run: a check that generated no obligations, or a verifier run that did not actually
+    # verify at least as many units as there are functions on the chain, proves nothing
+    vres = js.get('verification-results', {})
+    n_ver = vres.get('verified', 0) or 0
+    if not violations and (n_obl == 0 or len(my_obls) == 0 or n_ver + (vres.get('errors', 0) or 0) < len(builtin)):
+        print('INCONCLUSIVE property=%s vacuous run: %d named obligations, %d functions on the chain, verifier reports %d verified units' % (prop, len(my_obls), len(builtin), n_ver))
+        sys.exit(2)
     times = js.get('times-ms', {})
     fn_times = []
     try:
@@ -415,6 +422,7 @@ def main():
             'trusted_hoot_functions': [t for t in report['trusted_hoot'] if prop in fn_props.get(t, [])],
             'named_obligations': [o['name'] for o in my_obls],
             'builtin_obligations': builtin,
+            'verifier_units_verified_this_run': n_ver,
             'failed_obligations': sorted(failed_names),
             'functions_kept_under_contract_only_this_run': report.get('lost', []),
             'known_findings_not_counted': [{'obligation': k['obligation'], 'site': k['site'], 'what': k['what']} for k in known_hit],
